@@ -124,6 +124,21 @@ fn copy_dir(from: &Path, to: &Path) {
     }
 }
 
+/// copies in REVERSE name order and stamps the files so that the modification times run against the
+/// name order (the newest name is the oldest file): event files that arrive through Git (checkout,
+/// merge) carry arbitrary modification times
+fn copy_dir_against_names(from: &Path, to: &Path, t0: u64) {
+    fs::create_dir_all(to).unwrap();
+    let mut l: Vec<PathBuf> = listing(from).into_iter().collect();
+    l.reverse();
+    for (i, p) in l.iter().enumerate() {
+        let dst = to.join(p.file_name().unwrap());
+        fs::copy(p, &dst).unwrap();
+        let f = fs::OpenOptions::new().write(true).open(&dst).unwrap();
+        f.set_modified(std::time::UNIX_EPOCH + std::time::Duration::from_secs(t0 + 10 * i as u64)).unwrap();
+    }
+}
+
 fn main() {
     let base = std::env::temp_dir().join(format!("xvc-verif-ecsdrv-{}", std::process::id()));
     let args: Vec<String> = std::env::args().collect();
@@ -148,6 +163,36 @@ fn main() {
                 }
                 println!("{}", show_list(ents.iter(), show_ent));
                 // keep Drop from saving again under another name
+                std::mem::forget(g);
+            }
+        }
+        return;
+    }
+    if args.len() > 1 && args[1] == "genpar" {
+        // genpar <ecdir> <threads> <per_thread>: the threads of one process share the generator (as the
+        // rayon workers of the file commands and the step threads of a pipeline run do)
+        let dir = PathBuf::from(&args[2]);
+        let nt: usize = args[3].parse().unwrap();
+        let per: usize = args[4].parse().unwrap();
+        match xvc_ecs::load_generator(&dir) {
+            Err(_) => println!("NOGEN"),
+            Ok(g) => {
+                let all: Vec<Vec<XvcEntity>> = std::thread::scope(|sc| {
+                    let hs: Vec<_> = (0..nt)
+                        .map(|_| sc.spawn(|| (0..per).map(|_| g.next_element()).collect::<Vec<_>>()))
+                        .collect();
+                    hs.into_iter().map(|h| h.join().unwrap()).collect()
+                });
+                let mut firsts: Vec<u64> = all.iter().flatten().map(|e| { let (a, _): (u64, u64) = (*e).into(); a }).collect();
+                let total = firsts.len();
+                firsts.sort_unstable();
+                let min = firsts.first().copied().unwrap_or(0);
+                let max = firsts.last().copied().unwrap_or(0);
+                firsts.dedup();
+                g.save(&dir).unwrap();
+                let newest = listing(&dir).into_iter().next_back().unwrap();
+                let saved = fs::read_to_string(newest).unwrap();
+                println!("total={} distinct={} min={} max={} saved={}", total, firsts.len(), min, max, saved.trim());
                 std::mem::forget(g);
             }
         }
@@ -202,10 +247,14 @@ fn main() {
                 let dm = dir.join("m");
                 copy_dir(&db, &dm);
                 copy_dir(&dc, &dm);
+                // the same union, arrived in another order: c before b, newest names first and oldest
+                let dm2 = dir.join("m2");
+                copy_dir_against_names(&dc, &dm2, 1_000_000);
+                copy_dir_against_names(&db, &dm2, 2_000_000);
                 let load = |d: &Path| show_store(nv, &XvcStore::<String>::from_dir(d).unwrap());
                 format!(
                     "A={} | AB={} | AC={} | M={} | M'={} | dir={}",
-                    load(&da), load(&db), load(&dc), load(&dm), load(&dm), show_dir(&dm)
+                    load(&da), load(&db), load(&dc), load(&dm), load(&dm2), show_dir(&dm)
                 )
             }
             "r1n" => {
